@@ -13,6 +13,14 @@ type C07Case struct {
 	Root     Node    `json:"root"`
 	Paths    [][]int `json:"paths"`
 	AllPaths bool    `json:"allpaths"` // additionally try every path of length <=3 over [-1, width+1]
+	// Conditions (addressed by path in the tree as built) whose expression is re-assigned with SetExpression before
+	// any path is tried: the tree Traverse walks is the tree as it is now, not as it was assembled
+	Reassign []C07Re `json:"reassign,omitempty"`
+}
+
+type C07Re struct {
+	Path []int `json:"path"`
+	New  Node  `json:"new"`
 }
 
 // normIdent identifies a value irrespective of alias wrapping: Stack/Condition
@@ -108,6 +116,28 @@ func runC07(c C07Case) (st Stats, err error) {
 	var root stackage.Stack
 	if p := guard(func() { root = BuildStack(c.Root) }); p != "" {
 		return st, violf("setup/panic", "%s", p)
+	}
+	for _, re := range c.Reassign {
+		v, ok, _ := refTraverse(root, re.Path)
+		if !ok {
+			continue
+		}
+		cd, isC := unwrapCond(v)
+		if !isC {
+			continue
+		}
+		_, wasStack := unwrapStack(cd.Expression())
+		var nv any
+		if p := guard(func() { nv = Build(re.New); cd.SetExpression(nv) }); p != "" {
+			return st, violf("setup/panic", "SetExpression during set-up panicked: %s", p)
+		}
+		if _, isStack := unwrapStack(cd.Expression()); wasStack && !isStack {
+			st.Class("cond-expression-reassigned-stack-to-other")
+		} else if wasStack && isStack {
+			st.Class("cond-expression-reassigned-stack-to-stack")
+		} else if isStack {
+			st.Class("cond-expression-reassigned-other-to-stack")
+		}
 	}
 	maxW := 0
 	c.Root.Walk(func(n Node, d int) {
@@ -255,6 +285,21 @@ func genC07(t *rapid.T, tier Tier) C07Case {
 		c.Paths = append(c.Paths, p)
 	}
 	c.AllPaths = c.Root.Count() <= 14 && rapid.IntRange(0, 3).Draw(t, "allpaths") == 0
+	if cps := condPaths(c.Root, nil); len(cps) > 0 && rapid.IntRange(0, 2).Draw(t, "reassign?") == 0 {
+		for k := rapid.IntRange(1, 2).Draw(t, "nre"); k > 0; k-- {
+			re := C07Re{Path: rapid.SampledFrom(cps).Draw(t, "repath")}
+			switch rapid.IntRange(0, 3).Draw(t, "renew") {
+			case 0:
+				re.New = Node{T: "stack", Kind: rapid.SampledFrom(stackKinds).Draw(t, "rekind"), Elems: []Node{LeafN(VS("n0")), LeafN(VS("n1"))}}
+			case 1:
+				e := LeafN(VS("inner"))
+				re.New = Node{T: "cond", KW: "rk", Op: OpEq(), Expr: &e}
+			default:
+				re.New = LeafN(genPrimVal(t, false, false))
+			}
+			c.Reassign = append(c.Reassign, re)
+		}
+	}
 	// the longest descendable route of the tree, its long prefixes, and the same with a trailing index
 	// (paths are not bounded by any small number of indices)
 	if dp := deepestPath(c.Root); len(dp) >= 7 {
@@ -264,6 +309,24 @@ func genC07(t *rapid.T, tier Tier) C07Case {
 		c.Paths = append(c.Paths, append(append([]int{}, dp...), 0), append(append([]int{}, dp...), 0, 0))
 	}
 	return c
+}
+
+// condPaths: the index path to every Condition reachable by descending through stacks and through Conditions holding a stack.
+func condPaths(n Node, prefix []int) [][]int {
+	var out [][]int
+	for i, e := range n.Elems {
+		p := append(append([]int{}, prefix...), i)
+		switch {
+		case e.IsStack():
+			out = append(out, condPaths(e, p)...)
+		case e.IsCond():
+			out = append(out, p)
+			if e.Expr != nil && e.Expr.IsStack() {
+				out = append(out, condPaths(*e.Expr, p)...)
+			}
+		}
+	}
+	return out
 }
 
 // deepestPath: indices of the longest route through stacks and Conditions holding a stack, ending at a leaf.
@@ -289,12 +352,12 @@ func init() {
 		ID: "C07",
 		Rule: "rapid-generated trees (depth<=4, width<=4/5) of stacks of all kinds with leaves, nil slots, Conditions with stack / non-stack expressions, alias wrappings and per-node negative/forward index options; " +
 			"per tree 20/30 paths (half random over [-1,width+1] with occasional huge indices, half structured: follow the tree, step onto a non-descendable element, continue with indices valid for the current stack) and, for a quarter of the small trees, " +
-			"every path of length <=3 over [-1,width+1]. Oracle: Traverse must equal the stepwise descent computed with Index/Expression and the harness's own type switch over its wrap forms (values compared by underlying instance identity). " +
+			"every path of length <=3 over [-1,width+1]; in a third of the cases one or two Conditions of the built tree get a new expression (leaf, stack or Condition) through SetExpression before the paths are tried. Oracle: Traverse must equal the stepwise descent computed with Index/Expression and the harness's own type switch over its wrap forms (values compared by underlying instance identity). " +
 			"non-trivial = the case contains a path of length >=2 whose stepwise descent fails before its last index while a later index addresses an existing element of the same stack; distinct = distinct case JSON",
 		Gen: genC07,
 		Run: runC07,
 		Floors: map[string]float64{"fail-then-later-index-hits": 0.3, "fail-then-later-index-hits-stack": 0.03, "fails-at-leaf": 0.3, "fails-at-nil-slot": 0.05,
-			"fails-at-cond-without-stack": 0.05, "through-alias": 0.1, "negative-index": 0.2, "succeeds-depth-3": 0.05, "all-paths<=3": 0.03},
+			"fails-at-cond-without-stack": 0.05, "through-alias": 0.1, "negative-index": 0.2, "succeeds-depth-3": 0.05, "all-paths<=3": 0.03, "cond-expression-reassigned-stack-to-other": 0.02},
 		Assumptions: []string{"all stacks in the tree are initialised (zero-valued Stack elements are C08's domain)",
 			"no stack on a path carries a validity closure that rejects it: Traverse consults Valid() at every level and returns nothing for a stack its owner declared invalid; the statement does not speak about such stacks, so none are generated (an error recorded with SetErr, by contrast, is generated: it must not matter)"},
 	})
